@@ -6,7 +6,8 @@ import math
 
 import numpy as np
 
-MAX_WITNESSES_PER_KEY = 3
+import os as _os
+MAX_WITNESSES_PER_KEY = int(_os.environ.get("VERIF_WITNESSES", "3"))
 MAX_SAMPLES_PER_SHARD = 6
 
 
